@@ -77,7 +77,11 @@ def observe(ep, b):
         rew = float(ep.reward.reshape(ep.B, -1)[b, 0])
     elif ep.reward is not None:
         rew = ("shape", tuple(ep.reward.shape))
-    return dict(masks=masks, fin=f, reward=rew, pad=0 if f is None else len(ep.actions) - 1 - f, acts=ep.executed(b),
+    steprew = None
+    if getattr(ep, "states", None) and f is not None and all("reward" in st for st in ep.states[: f + 1]) and len(ep.states) > f:
+        # stepwise-reward configurations: the reward written to the state after each of the row's own steps
+        steprew = [float(ep.states[t]["reward"][b].reshape(-1)[0]) for t in range(f + 1)]
+    return dict(masks=masks, fin=f, reward=rew, steprew=steprew, pad=0 if f is None else len(ep.actions) - 1 - f, acts=ep.executed(b),
                 reward_exc=None if ep.reward_exc is None else f"{type(ep.reward_exc).__name__}: {str(ep.reward_exc)[:150]}")
 
 
@@ -101,6 +105,14 @@ def compare(ctx, cfg, context, ref, obs, inst_plain, script, B, pos, family):
     if obs["fin"] != ref["fin"]:
         ctx.violation(sig_of(cfg, q="finish", **base), f"[{context}] finishing step {obs['fin']} != solo {ref['fin']} for the same (instance, actions)", detail)
         return False
+    sa, sb = ref.get("steprew"), obs.get("steprew")
+    if sa is not None and sb is not None:
+        ctx.count("c04_step_reward_rows")
+        for t, (x, y) in enumerate(zip(sa, sb)):
+            if not (abs(x - y) <= 1e-5 * max(1.0, abs(x))):
+                detail.update(step=t, solo_step_reward=x, ctx_step_reward=y)
+                ctx.violation(sig_of(cfg, q="step_reward", **base), f"[{context}] the reward written after step {t} is {y}, in the solo execution of the same (instance, actions) it is {x}", detail)
+                return False
     ra, rb = ref["reward"], obs["reward"]
     if obs["reward_exc"] is not None and ref["reward_exc"] is None:
         ctx.violation(sig_of(cfg, q="reward_raises", **base), f"[{context}] get_reward raised {obs['reward_exc']} (solo did not)", detail)
@@ -126,9 +138,12 @@ def plain_row(td, b):
     return out
 
 
+_SNAP = {"keys": None}  # per-step state keys recorded for the case at hand (stepwise-reward configurations: "reward")
+
+
 def solo(env, td, b, script, gen, extra_pad=0, pad_chooser=None):
     return run_episode(env, td[b : b + 1].clone(), ["first_true"], gen, max_steps=len(script) + extra_pad + 1, scripted=[list(script)],
-                       pad_chooser=pad_chooser, extra_pad_steps=extra_pad)
+                       pad_chooser=pad_chooser, extra_pad_steps=extra_pad, snap_keys=_SNAP["keys"])
 
 
 def context_case(ctx, case):
@@ -136,7 +151,8 @@ def context_case(ctx, case):
     env, td, names = build(cfg, family, m, seed)
     gen = torch.Generator().manual_seed(seed)
     max_steps = case.get("max_steps", 6 * cfg["n"] + 30 if cfg["env"] in ROUTING else 2000)
-    ep = run_episode(env, td, names, gen, max_steps=max_steps)
+    _SNAP["keys"] = ["reward"] if cfg.get("stepwise") else None
+    ep = run_episode(env, td, names, gen, max_steps=max_steps, snap_keys=_SNAP["keys"])
     ctx.count("episodes")
     ctx.count("env_steps", len(ep.actions))
     if ep.error is not None or hasattr(ep, "dead_end_at"):
@@ -217,7 +233,7 @@ def context_case(ctx, case):
 
     def scripted_run(idx, scr, pad_chooser, extra=0):
         sub = rows(td, idx)
-        return run_episode(env, sub, ["first_true"] * len(idx), gen, max_steps=max_steps, scripted=[list(s) for s in scr], pad_chooser=pad_chooser, extra_pad_steps=extra)
+        return run_episode(env, sub, ["first_true"] * len(idx), gen, max_steps=max_steps, scripted=[list(s) for s in scr], pad_chooser=pad_chooser, extra_pad_steps=extra, snap_keys=_SNAP["keys"])
 
     if len(good) < 2:
         return
